@@ -4,6 +4,7 @@ import (
 	"fmt"
 	"testing"
 
+	m2 "github.com/goark/go-cvss/v2/metric"
 	m3 "github.com/goark/go-cvss/v3/metric"
 	"verif/harness/bind"
 	"verif/harness/gen"
@@ -92,6 +93,31 @@ var checkC13v2Fields = register("C13/v2fields", func(f fieldCase2) string {
 	return c13v2(e.Base.Score(), e.Temporal.Score(), e.Score(), f)
 })
 
+var checkC13v2Re = register("C13/v2reassigned", func(r reassignCase2) string {
+	if !inRange2(r.Prev) || !inRange2(r.Cur) || r.Prev.HasT != r.Cur.HasT || r.Prev.HasE != r.Cur.HasE {
+		return ""
+	}
+	e, err := build2(r.Prev)
+	if err != nil {
+		return fmt.Sprintf("shape template rejected: %v", err)
+	}
+	e.Base.Score()
+	e.Temporal.Score()
+	e.Score()
+	f := r.Cur
+	bind.SetV2Base(e.Base, f.B)
+	if f.HasT {
+		bind.SetV2Temporal(e.Temporal, f.T)
+	}
+	if f.HasE {
+		bind.SetV2Env(e, f.E)
+	}
+	if m := c13v2(e.Base.Score(), e.Temporal.Score(), e.Score(), f); m != "" {
+		return "on an object queried before its fields were assigned: " + m
+	}
+	return ""
+})
+
 var checkC13v2Decode = register("C13/v2decode", func(c scoreCase2) string {
 	ref, ok := spec.AcceptV2(c.Input, spec.Environmental)
 	if !ok {
@@ -178,6 +204,7 @@ func TestC13(t *testing.T) {
 			c.violation("v2fields", fieldCase2{HasE: true}, "shape template rejected")
 			return
 		}
+		prev2 := map[*m2.Environmental]fieldCase2{}
 		const space = 729 * 101 * 384 // TD fixed to N: CDP x CR x IR x AR = 6 x 64
 		one := func(n uint64) {
 			ei := int(n % 384)
@@ -200,7 +227,11 @@ func TestC13(t *testing.T) {
 			cl["v2-TD:N"]++
 			if s := o.Score(); s != 0 {
 				evalEnum(c, "v2fields", f.withText(), checkC13v2Fields, &nviol)
+				if p, seen := prev2[o]; seen && nviol == 0 {
+					evalEnum(c, "v2reassigned", reassignCase2{Prev: p.withText(), Cur: f.withText()}, checkC13v2Re, &nviol)
+				}
 			}
+			prev2[o] = f
 			if c.rec.SampleCount() < 6 && n%97 == 1 && ei == 100 {
 				c.rec.Sample(f.withText())
 			}
